@@ -208,7 +208,20 @@ class C20(Prop):
         elif vt == "str":
             vals = [[1, rng.randrange(3)] for _ in range(n)]
         elif vt == "list":
-            vals = [[2, sorted(rng.sample(range(6), rng.randrange(0, 4)))] for _ in range(n)]
+            # lists in any order and with repeated items: the same items in another order, or in other multiplicities, are another value
+            vals = []
+            for _ in range(n):
+                r = rng.random()
+                if vals and r < 0.3:
+                    prev = list(vals[-1][1])
+                    rng.shuffle(prev)
+                    vals.append([2, prev])
+                elif vals and r < 0.45 and vals[-1][1]:
+                    prev = list(vals[-1][1])
+                    prev[rng.randrange(len(prev))] = rng.choice(prev)
+                    vals.append([2, prev])
+                else:
+                    vals.append([2, [rng.randrange(6) for _ in range(rng.randrange(0, 4))]])
         else:
             # ("param": a fresh object per call; "live": one object changed in place, see _run)
             v, lo, hi = 10, 0, 100
